@@ -495,6 +495,22 @@ func Exec(t *testing.T, c *Check, seed uint64, tier string, sc *Scenario) *Resul
 	hooks := &simhook.Hooks{
 		Probe: func(name string) { r.Probe(name) },
 		Intn:  func(n int, label string) int { return r.tape.Intn("hook", n) },
+		// a panic that unwinds a goroutine of the system (indexer, syncer, replicator,
+		// truncator loop, ...) would end the process: it is recorded like a panic in a
+		// harness task and the goroutine ends in an orderly way
+		GoPanic: func(x interface{}, stack []byte) {
+			st := string(stack)
+			r.mu.Lock()
+			if r.viol == nil && r.trouble == "" && !r.ended {
+				if fn := sutPanicFrame(st); fn != "" {
+					r.viol = &Violation{Class: "panic", Sig: "panic:" + fn, Msg: fmt.Sprintf("panic in a background goroutine of the system under test: %v\n%s", x, st)}
+				} else {
+					r.trouble = fmt.Sprintf("unexpected panic in a background goroutine: %v\n%s", x, st)
+				}
+			}
+			r.mu.Unlock()
+			r.fireOnStop()
+		},
 	}
 	r.Disk = newDisk(r)
 	r.Disk.install(hooks)
